@@ -226,6 +226,20 @@ def case_value(mon, v, ndecs, raw_input=None):
                     mon.cls("printing-carried", (v, ra, fancy, n_dec),
                             [v, n_dec, s])
     mon.check("operand-unchanged", a() == v, {"value": v, "after": a()})
+    # "a negative n_dec disables rounding": every negative value, not only
+    # the default -1
+    try:
+        for f in (True, False):
+            full = (a.dms_str(f, -1), a.ra_str(f, -1))
+            for nn in (-2, -3, -12):
+                mon.evals += 1
+                got = (a.dms_str(f, nn), a.ra_str(f, nn))
+                mon.check("negative-n_dec==no-rounding", got == full,
+                          lambda: {"value": v, "fancy": f, "n_dec": nn,
+                                   "printed": got, "with_n_dec=-1": full})
+    except Exception as e:
+        mon.dev("negative-n_dec==no-rounding", {"value": v,
+                                                "raised": repr(e)})
     # a refused print call (n_dec of the wrong type) leaves the Angle as it
     # was: every decomposition and printed form afterwards is unchanged
     try:
